@@ -46,6 +46,8 @@ def parse_fn(t, pos):
         n = int(t[pos]); d["q"] = [fl(x) for x in t[pos + 1:pos + 1 + n]]; pos += 1 + n
     elif kind in ("powc", "plat"):
         d["ip"] = int(t[pos]); d["c"] = fl(t[pos + 1]); pos += 2
+    elif kind == "dip":
+        d["a"], d["r"], d["w"], d["eta"], d["kappa"] = (fl(x) for x in t[pos:pos + 5]); pos += 5
     elif kind == "rbump":
         d["ip"] = int(t[pos]); d["s"] = fl(t[pos + 1]); d["c"] = fl(t[pos + 2]); pos += 3
     elif kind == "sat":
@@ -99,6 +101,13 @@ def feval(d, x):
             return None
         v = x ** d["ip"]
         return v - Fraction(d["c"]), abs(v) * (1 + abs(d["ip"])) + abs(Fraction(d["c"]))
+    if k == "dip":
+        r_, a_, kap = Fraction(d["r"]), Fraction(d["a"]), Fraction(d["kappa"])
+        if x > r_:
+            v = mpmath.mpf(d["eta"]) * mpmath.tanh((mpmath.mpf(x.numerator) / x.denominator - mpmath.mpf(d["r"])) / mpmath.mpf(d["w"]))
+            return v, abs(v) * 4 + abs(mpmath.mpf(d["eta"])) * (abs(float(x)) + abs(d["r"])) / d["w"] * 4
+        v = -(r_ - x) * ((x - a_) + kap)
+        return v, (abs(r_) + abs(x)) * (abs(x) + abs(a_) + abs(kap)) * 4
     if k == "rbump":
         e = (1 / (1 + x * x)) ** d["ip"]
         c, s_ = Fraction(d["c"]), Fraction(d["s"])
@@ -182,6 +191,8 @@ def fn_str(d):
         return "rat %s %s" % (lst(d["p"]), lst(d["q"]))
     if k in ("powc", "plat"):
         return "%s %d %s" % (k, d["ip"], hx(d["c"]))
+    if k == "dip":
+        return "dip %s %s %s %s %s" % (hx(d["a"]), hx(d["r"]), hx(d["w"]), hx(d["eta"]), hx(d["kappa"]))
     if k == "rbump":
         return "rbump %d %s %s" % (d["ip"], hx(d["s"]), hx(d["c"]))
     if k == "sat":
@@ -198,7 +209,7 @@ def fn_str(d):
 def rq_root(d, xl, xr, acc, oracle_only=False):
     # oracle only: transcendental kinds, and plateaus so low that f*f underflows in double (IEEE underflow is
     # not in the exact-rational model)
-    op = "c02.fam" if oracle_only or d["kind"] in TRANSC or d["kind"] == "rbump" or (d["kind"] == "plat" and d["c"] < 1e-140) else "c02.root"
+    op = "c02.fam" if oracle_only or d["kind"] in TRANSC or d["kind"] in ("rbump", "dip") or (d["kind"] == "plat" and d["c"] < 1e-140) else "c02.root"
     return "%s %s %s %s %s" % (op, fn_str(d), hx(xl), hx(xr), hx(acc))
 
 
@@ -580,6 +591,42 @@ def generate(tier, seed, ctx):
             ok = False
         if ok:
             add(d, a, b, acc_for(max(abs(s0), L * 1e-3), b - a), "bump/%s" % d["kind"])
+    # 6g. plateau/dip: tiny positive plateau right of the root, deep negative dip left of it, f(a) tiny negative, the root just
+    #     below the midpoint of a bracket straddling zero: after a case-a update the working bracket is REVERSED (x1 > x2)
+    #     and rounding pushes Ridders' point past x1 (the clamp's upper branch with max(x1,x2) = x1 is at stake)
+    for _ in range(60 * N):
+        a = -rng.uniform(1.2, 2.2); b = rng.uniform(1.5, 2.3)
+        if rng.random() < 0.3:
+            sc = 10.0 ** rng.randint(-3, 3); a *= sc; b *= sc
+        else:
+            sc = 1.0
+        m = (a + b) / 2; dd = rng.uniform(1.0e-3, 2.0e-3) * sc; r = m - dd
+        w = 0.05 * sc; eta = 10.0 ** -rng.choice([30, 30, 20, 40])
+        f3 = eta * math.tanh(dd / w); kappa = 3 * f3 * f3 / (eta * (r - a))
+        d = dict(kind="dip", a=a, r=r, w=w, eta=eta, kappa=kappa)
+        add(d, a, b, rng.choice([1e-12, 1e-12, 1e-9, 1e-6]) * sc, "dip")
+    # 4h. |a| + |b| > DBL_MAX with ends of OPPOSITE sign (the width b - a overflows) and f(first midpoint) == 0 exactly ----
+    for _ in range(20 * N):
+        A = 1.7976931348623157e308 * rng.uniform(0.55, 0.99)
+        if rng.random() < 0.5:
+            a, b = -A, A                                   # symmetric: midpoint 0
+        else:
+            a = -A; b = 1.7976931348623157e308 * rng.uniform(0.55, 0.99)
+        m = (a + b) / 2
+        kind = rng.random()
+        if kind < 0.5:
+            mm = rng.choice([1.0, -1.0, 2.0 ** -30, -2.0 ** -600])
+            d = dict(kind="poly", p=[-mm * m, mm])       # linear, zero at the midpoint (exact: mm is a power of two)
+        elif kind < 0.75:
+            d = dict(kind="sat", s=m, c=0.0)             # odd about the midpoint, bounded
+        else:
+            d = dict(kind="atan", w=10.0 ** -rng.uniform(300, 308), s=m, c=0.0)
+        try:
+            ok = sign_change(d, a, b)
+        except Exception:
+            ok = False
+        if ok:
+            add(d, a, b, (b / 2 - a / 2) * 10.0 ** -rng.uniform(1, 12), "dblmax-mid/" + d["kind"])
     # 7c. magnitude dimension of the end values: same-sign and opposite-sign pairs whose product underflows to zero ----
     tiny = [1e-200, 1e-320, 2.0 ** -600, 5e-324, 1.5]
     for (a, b) in ((-3.0, 3.5),) if not thorough else ((0.0, 3.0), (-3.0, 3.5)):
